@@ -666,6 +666,34 @@ func (r *FnRun) applyContract(st *State, c *Contract, calleeName string, sig *ty
 	}
 	env2 := env.child()
 	env2.cur, env2.old = post, pre
+	if len(c.Returns) > 0 {
+		// defined results (assumed external contracts only): the named result is the value of an expression over the arguments
+		if !c.External {
+			panic(cerr("returns clauses are only allowed on assumed external contracts (%s)", calleeName))
+		}
+		for _, rd := range c.Returns {
+			v := env2.Eval(rd.E)
+			found := false
+			for i := 0; i < nres; i++ {
+				rv := sig.Results().At(i)
+				if rv.Name() == rd.Name || (nres == 1 && rd.Name == "res") || rd.Name == fmt.Sprintf("res%d", i) {
+					if v.Const != nil {
+						v = env2.coerceConst(v, rv.Type())
+					}
+					if nres == 1 {
+						res = v.V
+					} else {
+						res.(TupleV).Elems[i] = v.V
+					}
+					found = true
+					break
+				}
+			}
+			if !found {
+				panic(cerr("returns: %s has no result %q", calleeName, rd.Name))
+			}
+		}
+	}
 	if nres > 0 {
 		r.bindResults(env2, sig, res)
 		if nres == 1 {
@@ -1040,6 +1068,9 @@ func (r *FnRun) applyHavoc(post, pre *State, mods []ModTarget) {
 func (r *FnRun) resultInvariant(st *State, v Val, t types.Type) {
 	switch x := v.(type) {
 	case SliceV:
+		if x.Arr != nil {
+			return // a ghost byte string (content array, no backing object): the header invariants do not apply
+		}
 		r.loadedSliceInvariant(st, x)
 	case PSlice:
 		r.typeInvariant(x, t)
